@@ -38,7 +38,8 @@ META = {
     'trusted_base': ['txsa.sym interpreter', 'CPython ast',
                      'ObjectManager interface names'],
     'assumptions': [],
-    'decided': ['D1 ownership of the export table',
+    'decided': ['D1 ownership of the export table; answers cached by the call '
+                'handler are reset wholesale whenever the table changes',
                 'D2 one announcement per export / unexport',
                 'D3 descendants are selected hierarchically',
                 'D4 immediate children (each listed once: de-duplicated '
